@@ -41,7 +41,7 @@ Proof.
   - intros t Ht. rewrite (F_in rmin rmax c r0 s) by lra.
     rewrite shiftR_eval, stretch_eval by auto. reflexivity.
   - intros t Ht. apply F_lo. lra.
-  - intros t Ht. apply F_hi. lra.
+  - intros t [Ht _]. apply F_hi. lra.
 Qed.
 
 (* ---- pieces ---- *)
